@@ -119,6 +119,33 @@ def build_with_history(spec, history):
     return m
 
 
+def status_table_stage(ctx):
+    """`check_solver_status` vs `ReplyM.checkSolverStatus`, exhaustively: every status constant of optlang.interface, None and an unknown status,
+    with raise_error off and on.  (The domain is finite: this comparison is complete, not sampled.)"""
+    import optlang.interface as oi
+    from cobra.util.solver import check_solver_status
+    statuses = sorted({v for k, v in vars(oi).items() if k.isupper() and isinstance(v, str) and v == k.lower()}) + [None, "no_such_status"]
+    lines, reals = [], []
+    for st in statuses:
+        for flag in (False, True):
+            with warnings.catch_warnings():
+                warnings.simplefilter("ignore")
+                try:
+                    check_solver_status(st, raise_error=flag)
+                    real = None
+                except Exception as e:
+                    real = "OptimizationError" if isinstance(e, OptimizationError) else type(e).__name__
+            lines.append(json.dumps({"build": "checkStatus", "status": st, "raise": flag}))
+            reals.append((st, flag, real))
+    outs = [json.loads(l) for l in common.run_driver_persistent("auxprob", lines)]
+    bad = [(st, flag, real, o.get("raises", o)) for (st, flag, real), o in zip(reals, outs) if "bad-line" in o or o["raises"] != real]
+    if bad:
+        ctx.broken.append({"kind": "correspondence", "name": "check_solver_status vs ReplyM.checkSolverStatus (exhaustive)",
+                           "detail": "; ".join(f"status={st!r} raise_error={flag}: code {'returns' if real is None else 'raises ' + real}, model "
+                                               f"{'returns' if mo is None else 'raises ' + str(mo)}" for st, flag, real, mo in bad[:6])})
+    ctx.coverage["status_table"] = {"statuses": len(statuses), "pairs_compared": len(outs), "mismatches": len(bad)}
+
+
 def check_instance(spec, truth, interface, history="plain"):
     """Compare cobrapy on one instance with the certified truth.  Returns a list of failure strings."""
     fails = []
@@ -259,6 +286,7 @@ def run(ctx):
                        regenerate=translate_status.regenerate)
     # the problem slim_optimize hands to GLPK vs `AuxM.Net.fba` (finite, one-sided and infinite bounds, both directions, any linear objective)
     auxcorr.stage(ctx, [("Model.slim_optimize", lambda make, spec, rng: auxcorr.pairs_fba(make()))], fbagen.gen_fba_spec, ctx.scale(80, 1500))
+    status_table_stage(ctx)
     rng = ctx.rng
     n = ctx.scale(600, 12000)
     split = {"optimal": 0, "infeasible": 0, "unbounded": 0}
